@@ -1,5 +1,5 @@
 from vv.core import harness, fuzz_target, REPO
-from vv.registry import PROPS, COMMON_ASSUME, rc, fz
+from vv.registry import PROPS, COMMON_ASSUME, rc, fz, py
 
 harness("h_c08", ["harness/h_c08.cc"], libs=("csg",))
 fuzz_target("fz_c08_table", ["fuzz/fz_c08_table.cc", f"{REPO}/tools/src/libtools/table.cc", f"{REPO}/tools/src/libtools/tokenizer.cc",
@@ -9,7 +9,8 @@ PROPS["C08"] = dict(
     parts=[rc("h_c08", quick=dict(cases=8000, procs=8, budget_s=600),
               thorough=dict(cases=160000, procs=16, budget_s=1800)),
            fz("fz_c08_table", quick=dict(runs=60000, procs=2, max_len=160, budget_s=300),
-              thorough=dict(runs=2000000, procs=8, max_len=256, budget_s=1200))],
+              thorough=dict(runs=2000000, procs=8, max_len=256, budget_s=1200)),
+           py("vv.exe_c08", quick=dict(cases=120, procs=8, budget_s=600), thorough=dict(cases=4000, procs=16, budget_s=2400))],
     rule=("gro|pdb|xyz|dump|dlph|dlpc: generated topology (1..200 spherical beads, 1..6 residues, 1..4 types, names of 1..5 printable "
           "characters) and 1..5 frames (dlpc: 1) with step>=1, time=step*dt, positions/velocities/forces on a decimal lattice two digits finer "
           "than the format prints (or full double precision for the general-notation formats), magnitudes inside the format's field width "
@@ -33,7 +34,10 @@ PROPS["C08"] = dict(
           "by an exception or the accepted object survives print->parse (shape, values to the printed digits, flags, names, ranges); "
           "non-trivial = table with >=2 rows and a flag other than i / matrix that is neither symmetric nor a vector / index with >=2 groups."
           " fieldwidth_beadcount: gro / pdb round trips with 99999..131072 beads (the five-digit atom-number columns wrap at 100000), "
-          "beads and coordinates a pure function of the compact case; a handful of cases per run."),
+          "beads and coordinates a pure function of the compact case; a handful of cases per run."
+          " csg_map_chain (executables): own-writer gro trajectories (1-3 frames, orthorhombic / reduced triclinic, optional velocities) "
+          "converted by csg_map --no-map to gro|dump|pdb|xyz|dlph and back to gro; positions, velocities and the nine box values must come "
+          "back within the printed precision, frame count kept; non-trivial = >1 frame, triclinic or velocities."),
     assumptions=COMMON_ASSUME + [
         "lammps dump is exercised with orthorhombic/open boxes only (VOTCA's reader rejects the triclinic header, the writer never emits it)",
         "pdb carries no box (PDBWriter::Write emits no CRYST1 record); xyz carries positions and 3 characters of the name only",
